@@ -7,10 +7,8 @@ import (
 	"fmt"
 	"math/rand"
 	"runtime"
-	"strconv"
 	"strings"
 	"sync"
-	"sync/atomic"
 	"time"
 
 	"gpverif/common"
@@ -60,8 +58,8 @@ func (s *session) run(rng *rand.Rand) {
 		}
 		return r
 	}
-	scripts["a"] = pick([]string{"run", "minit", "rac", "run"}, 2+rng.Intn(4))
-	scripts["b"] = pick([]string{"run", "rac"}, 1+rng.Intn(4))
+	scripts["a"] = pick([]string{"run", "minit", "rac", "run", "runr", "minitr", "racx", "minitc"}, 2+rng.Intn(4))
+	scripts["b"] = pick([]string{"run", "rac", "runr", "racx"}, 1+rng.Intn(4))
 	scripts["c"] = pick([]string{"close", "wait", "nop", "nop"}, 1+rng.Intn(3))
 	scripts["d"] = pick([]string{"close", "nop", "nop", "close"}, 1+rng.Intn(3))
 	// make sure someone closes so that waits end
@@ -103,24 +101,8 @@ func (s *session) run(rng *rand.Rand) {
 						}
 					}()
 					switch op {
-					case "run":
-						g := py.NewStringDict()
-						g["y"] = y
-						if _, err := s.ctx.RunCode(codeY, g, g, nil); err != nil {
-							return "err"
-						}
-						return "ok"
-					case "minit":
-						name := "vs" + strconv.FormatInt(atomic.AddInt64(&modSeq, 1), 10)
-						if _, err := s.ctx.ModuleInit(&py.ModuleImpl{Info: py.ModuleInfo{Name: name}, Methods: []*py.Method{y}, Code: codeY}); err != nil {
-							return "err"
-						}
-						return "ok"
-					case "rac":
-						if _, err := s.ctx.ResolveAndCompile("racmod.py", py.CompileOpts{CurDir: racDir}); err != nil {
-							return "err"
-						}
-						return "ok"
+					case "run", "runr", "minit", "minitr", "minitc", "rac", "racx":
+						return execOp(s.ctx, op, y)
 					case "close":
 						s.ctx.Close()
 						return "closed"
